@@ -26,7 +26,12 @@ impl<'a> Iterator for RuntimeGuardIter<'a> {
             return Some(Err(err));
         }
 
-        match self.inner.next() {
+        let item = self.inner.next();
+        // An error raised while the inner iterator evaluated expressions (EXISTS subquery).
+        if let Err(err) = self.params.take_failure() {
+            return Some(Err(err));
+        }
+        match item {
             Some(Ok(row)) => {
                 if let Err(err) = self.params.note_emitted_row(self.stage) {
                     return Some(Err(err));
